@@ -74,6 +74,9 @@ func (a *Address) UnmarshalText(input []byte) error {
 	if err != nil {
 		return err
 	}
+	if len(decoded) != AddressLen {
+		return fmt.Errorf("%w: address length is %d, expected %d", ErrInvalidSize, len(decoded), AddressLen)
+	}
 
 	copy(a[:], decoded)
 	return nil
